@@ -72,7 +72,7 @@ for f in ['readLenEncInt', 'metadataRead', 'newBitmap', 'Bitmap.Count', 'Bitmap.
 ROWS_CASES = ['t23', 't24', 't25', 't30', 't31', 't32']
 for t in ROWS_CASES:
     runs['rows-' + t] = {'func': 'binlogEvent.Rows', 'case': 'vc_case_Rows_' + t, 'opaque': 'specCellLen,specCellOK,specCellText',
-                         'exclude': ['call-pre:newBitmap@loop', 'call-pre:cellLength@loop'], 'skip_excluded': True, 'timeout': 60, 'jobs': 3, 'wall': 1500, 'min_obligations': 60}
+                         'exclude': ['call-pre:newBitmap@loop', 'call-pre:cellLength@loop'], 'skip_excluded': True, 'timeout': 120, 'jobs': 3, 'wall': 2400, 'min_obligations': 60}
 # UPDATE rows events carry two images per row; the per-row image clause does not discharge within the time limit for
 # them (two chained position functions): not decided for these two types, everything else of the unit is
 for t in ('t24', 't31'):
@@ -92,7 +92,7 @@ PARSER_OBS = ("binlogEvent_Format,binlogEvent_Rotate,binlogEvent_Query,binlogEve
               "GetStatementCategory,appendInsertEventFromRows,appendUpdateEventFromRows,appendDeleteEventFromRows,newError,Error_msgf,"
               "Streamer_binlogPosition,StatementType_String,NewMysqlTableName")
 runs['parser'] = {'pkg': '.', 'func': 'Streamer.parseEvents', 'observer': PARSER_OBS,
-                  'ifacetag': 'replication.BinlogEvent=replication.mysql56BinlogEvent', 'min_obligations': 1000, 'wall': 900, 'timeout': 45}
+                  'ifacetag': 'replication.BinlogEvent=replication.mysql56BinlogEvent', 'min_obligations': 1000, 'wall': 1500, 'timeout': 150}
 for n, f in [('conn-read', 'slaveConnection.readBinlogEvent'), ('conn-reader', 'slaveConnection.startDumpFromBinlogPosition$1'),
              ('conn-new', 'newSlaveConnection'), ('conn-dump', 'slaveConnection.startDumpFromBinlogPosition'),
              ('stream', 'Streamer.Stream'), ('stream-error', 'Streamer.Error')]:
@@ -327,6 +327,8 @@ runs['gtid-56-contains'] = {'func': 'Mysql56GTIDSet.Contains', 'ifacetag': 'repl
 runs['gtid-sidblock-read'] = {'func': 'NewMysql56GTIDSetFromSIDBlock', 'timeout': 40}
 runs['gtid-prev56'] = {'func': 'mysql56BinlogEvent.PreviousGTIDs'}
 runs['gtid-maria-contains'] = {'func': 'MariadbGTIDSet.ContainsGTID', 'ifacetag': 'replication.GTID=replication.MariadbGTID'}
+runs['gtid-maria-containsset'] = {'func': 'MariadbGTIDSet.Contains', 'ifacetag': 'replication.GTIDSet=replication.MariadbGTIDSet'}
+runs['gtid-maria-equal'] = {'func': 'MariadbGTIDSet.Equal', 'ifacetag': 'replication.GTIDSet=replication.MariadbGTIDSet'}
 runs['gtid-maria-add'] = {'func': 'MariadbGTIDSet.AddGTID', 'ifacetag': 'replication.GTID=replication.MariadbGTID'}
 
 props['C18'] = {
@@ -340,11 +342,11 @@ props['C18'] = {
 }
 props['C19'] = {
     'level': 'other',
-    'explanation': "Partial, by contract on the real code. Decided for all inputs: (a) GTID events decode to the identifiers the master wrote — for every event body of sufficient length and every valid format, mysql56BinlogEvent.GTID returns the 16 server-id bytes at header+1 and the little-endian sequence number at header+17, mariadbBinlogEvent.GTID returns sequence / domain from the body, the server id from the common header and the begin flag from FL_STANDALONE; (b) MariadbGTIDSet.ContainsGTID compares sequence numbers within the GTID's domain (true iff the entry of that domain has reached the sequence number, false if the domain is absent); (c) MariadbGTIDSet.AddGTID on a set with one position per domain returns a set that differs from the receiver exactly at that domain (greater of the two positions) or has the GTID appended, and never writes the receiver's memory (frame obligations; defect F12 repaired). (d) the SID-block reader: for every block with the documented layout whose intervals are ones the writer emits (1 <= start < stored exclusive end, as unsigned numbers — which includes the stored end 2^63), decoding succeeds and every interval appended to the result is (start, stored end - 1) of the 16 bytes just read under the server id just read (bytes.Reader / binary.Read by library contract; position invariants over a recursive layout function). Not decided: text round trips (String / Parse*, strconv and strings parsing, fmt, the flavor registry maps built in init), the SID-block writer (map iteration + sort) and hence the round trip as a whole. (e) A MySQL 5.6 previous-GTIDs event decodes its body through that reader (succeeds for every well-formed body).",
+    'explanation': "Partial, by contract on the real code. Decided for all inputs: (a) GTID events decode to the identifiers the master wrote — for every event body of sufficient length and every valid format, mysql56BinlogEvent.GTID returns the 16 server-id bytes at header+1 and the little-endian sequence number at header+17, mariadbBinlogEvent.GTID returns sequence / domain from the body, the server id from the common header and the begin flag from FL_STANDALONE; (b) MariadbGTIDSet.ContainsGTID compares sequence numbers within the GTID's domain (true iff the entry of that domain has reached the sequence number, false if the domain is absent); (b') MariadbGTIDSet.Contains: true exactly if every position of the other set is reached in its domain (a false answer comes with the position that is not; both directions by loop invariant, through ContainsGTID's contract); MariadbGTIDSet.Equal is position-wise equality of the two lists; (c) MariadbGTIDSet.AddGTID on a set with one position per domain returns a set that differs from the receiver exactly at that domain (greater of the two positions) or has the GTID appended, and never writes the receiver's memory (frame obligations; defect F12 repaired). (d) the SID-block reader: for every block with the documented layout whose intervals are ones the writer emits (1 <= start < stored exclusive end, as unsigned numbers — which includes the stored end 2^63), decoding succeeds and every interval appended to the result is (start, stored end - 1) of the 16 bytes just read under the server id just read (bytes.Reader / binary.Read by library contract; position invariants over a recursive layout function). Not decided: text round trips (String / Parse*, strconv and strings parsing, fmt, the flavor registry maps built in init), the SID-block writer (map iteration + sort) and hence the round trip as a whole. (e) A MySQL 5.6 previous-GTIDs event decodes its body through that reader (succeeds for every well-formed body).",
     'claim': "GTID event decoding (both flavors), MariaDB set containment and copy-on-add, and the SID-block reader proved for all inputs; textual forms and the SID-block writer not covered.",
     'note': "Trusted: govc, solvers, encoding/binary model. The dynamic type of the GTID argument is fixed to MariadbGTID in the set units.",
     'technique': GEN,
-    'runs': ['gtid-ev56', 'gtid-evmaria', 'gtid-maria-contains', 'gtid-maria-add', 'gtid-sidblock-read', 'gtid-prev56'],
+    'runs': ['gtid-ev56', 'gtid-evmaria', 'gtid-maria-contains', 'gtid-maria-add', 'gtid-maria-containsset', 'gtid-maria-equal', 'gtid-sidblock-read', 'gtid-prev56'],
     'assumptions': ["the GTID argument has dynamic type MariadbGTID in the set units (unit parameter -ifacetag); another dynamic type returns false / the receiver on the first lines of these functions"],
 }
 
